@@ -52,6 +52,15 @@ Fixpoint walk {A} (f : Z -> list N -> A) (unit fuel : nat) (addr : Z) (data : li
 Definition pieces {A} (f : Z -> list N -> A) (unit : nat) (addr : Z) (data : list N) : list A :=
   walk f unit (length data) addr data.
 
+(* walk on the absolute grid of the hardware: the first piece ends at the next multiple of the unit
+     first = min(len(image), -base % UNIT); blocks = [image[:first]] if first else []; blocks.extend(split_data(image[first:], UNIT)) *)
+Definition grid_first (unit : nat) (base : Z) (data : list N) : nat :=
+  Z.to_nat (Z.min (zlen data) ((- base) mod Z.of_nat unit)).
+Definition grid_pieces {A} (f : Z -> list N -> A) (unit : nat) (base : Z) (data : list N) : list A :=
+  let first := grid_first unit base data in
+  (match first with O => [] | _ => [f base (firstn first data)] end)
+  ++ pieces f unit (base + Z.of_nat first) (skipn first data).
+
 (* the pieces are produced in order; the first exception aborts the call *)
 Fixpoint seq_concat (l : list (res (list N))) : res (list N) :=
   match l with
@@ -129,7 +138,8 @@ Definition kb_export (E : cipher) (k : kblob) (kek : list N) (swapcnt : Z) : res
            Ok (align_zero 64 blobs)
        end.
 
-Definition kb_contains (k : kblob) (a : Z) : bool := (kb_start k <=? a) && (a <=? kb_end k).
+(* the region the hardware decrypts ends with the 1 KiB unit of (end_addr - 1) *)
+Definition kb_contains (k : kblob) (a : Z) : bool := (kb_start k <=? a) && (a <=? Z.lor (kb_end k - 1) 1023).
 Definition kb_matches (k : kblob) (a b : Z) : bool := kb_contains k a && kb_contains k b.
 Definition kb_is_encrypted (k : kblob) : bool := Z.land (kb_flags k) 3 =? 3.
 
@@ -151,11 +161,10 @@ Definition kb_encrypt_image (E : cipher) (k : kblob) (base : Z) (data : list N) 
     if negb (Nat.eqb (length (kb_ctr k)) 8) then Err 1
     else
       let cv' := if cv =? 0 then kb_start k else cv in
-      if (0 <? zlen d) && (cv' + zlen d >? M32) then Err 2        (* Counter.value: OverflowError *)
-      else
-        let f := E (kb_key k) in
-        let n12 := kb_nonce12 (kb_ctr k) in
-        Ok (concat (pieces (kb_block f n12 swap) 16 cv' d)).
+      (* Counter.value encodes the counter word modulo 2^32 (be32 truncates) *)
+      let f := E (kb_key k) in
+      let n12 := kb_nonce12 (kb_ctr k) in
+      Ok (concat (pieces (kb_block f n12 swap) 16 cv' d)).
 
 Definition otfad_piece (E : cipher) (blobs : list kblob) (swap : bool) (a : Z) (p : list N) : res (list N) :=
   blob_fold (fun k => kb_matches k a (a + zlen p - 1) && kb_is_encrypted k)
@@ -163,7 +172,7 @@ Definition otfad_piece (E : cipher) (blobs : list kblob) (swap : bool) (a : Z) (
 
 (* Otfad.encrypt_image(image, base_addr, byte_swap) *)
 Definition otfad_encrypt_image (E : cipher) (blobs : list kblob) (image : list N) (base : Z) (swap : bool) : res (list N) :=
-  seq_concat (pieces (otfad_piece E blobs swap) U1K base image).
+  seq_concat (grid_pieces (otfad_piece E blobs swap) U1K base image).
 
 (* OtfadNxp.export_image: every data blob is first aligned to 16 bytes *)
 Definition otfad_nxp_encrypt (E : cipher) (blobs : list kblob) (image : list N) (base : Z) (swap : bool) : res (list N) :=
@@ -273,11 +282,12 @@ Definition octx_of_blob (k : kblob) : octx :=
 Definition kb_covers (k : kblob) (a : Z) : bool :=
   (kb_start k / 1024 <=? a / 1024) && (a / 1024 <=? (kb_end k - 1) / 1024).
 
-(* 1 KiB-aligned range given either as [start, end) (end a multiple of 1024, as in the configuration templates) or
-   as [start, end] (end = ...3FF, as in the API examples) *)
+(* what KeyBlob.__init__ accepts with a non-empty range: start on the 1 KiB grid; the end address may be given as the
+   exclusive end (a multiple of 1024, as in the configuration templates), as the last address (...3FF, as in the API
+   examples) or anywhere in the last 1 KiB unit -- the exported region always ends with the unit of (end - 1) *)
 Definition kb_wf (k : kblob) : Prop :=
   length (kb_ctr k) = 8%nat /\ 0 <= kb_start k /\ kb_start k mod 1024 = 0 /\ kb_start k < kb_end k /\
-  kb_end k <= 4294967295 /\ (kb_end k mod 1024 = 0 \/ kb_end k mod 1024 = 1023) /\ 0 <= kb_flags k < 8.
+  kb_end k <= 4294967295 /\ 0 <= kb_flags k < 8.
 
 Definition blobs_disjoint (bl : list kblob) : Prop :=
   ForallOrdPairs (fun k1 k2 => forall a, kb_covers k1 a = true -> kb_covers k2 a = false) bl.
@@ -348,9 +358,8 @@ Definition ib_encrypt_ctr (E : cipher) (b : iblob) (a : Z) (d : list N) : res (l
       if negb (Nat.eqb (length nonce) 16) then Err 1
       else
         let c0 := Z.of_N (be_dec (skipn 12 nonce)) + Z.shiftr a 4 in
-        let nblk := (zlen d + 15) / 16 in
-        if (0 <? nblk) && (c0 + nblk - 1 >=? M32) then Err 2       (* Counter.value: OverflowError *)
-        else let f := E k in Ok (concat (pieces (ib_ctr_block f (firstn 12 nonce)) 16 (16 * c0) d))
+        (* Counter.value encodes the counter word modulo 2^32 (be32 truncates) *)
+        let f := E k in Ok (concat (pieces (ib_ctr_block f (firstn 12 nonce)) 16 (16 * c0) d))
   | Err e, _ => Err e
   | _, Err e => Err e
   end.
@@ -358,6 +367,7 @@ Definition ib_encrypt_ctr (E : cipher) (b : iblob) (a : Z) (d : list N) : res (l
 (* IeeKeyBlob.encrypt_image *)
 Definition ib_encrypt_image (E : cipher) (b : iblob) (a : Z) (data : list N) : res (list N) :=
   if negb (a mod 16 =? 0) then Err 1
+  else if ib_mode b =? MODE_BYPASS then Ok data     (* the hardware passes a bypass region through unchanged *)
   else let d := pad16 data in
        if mode_is_ctr (ib_mode b) then ib_encrypt_ctr E b a d else ib_encrypt_xts E b a d.
 
@@ -389,7 +399,7 @@ Definition iee_encrypt_key_blobs (E : cipher) (blobs : list iblob) (kek1 kek2 : 
    A context = one key blob as loaded by the ROM.  Keys are stored as little-endian words, the AES engine takes the
    words most significant byte first (hence the byte reversal in every 32-bit word).  Region = [start, end).
    XTS: data unit = 4 KiB sector, tweak = sector number (address >> 12), block j of the sector uses T * alpha^j.
-   CTR with address binding: counter block = nonce[0:12] || ((nonce[12:16] + (address >> 4)) mod 2^32).
+   CTR with address binding: counter block = nonce[0:12] || ((nonce[12:16] + (address >> 4)) mod 2^32) (the 32-bit word wraps).
    Bypass: data pass unchanged.  The other CTR variants are not specified here. *)
 Record ictx := { ic_mode : Z; ic_keyattr : Z; ic_key1 : list N; ic_key2 : list N; ic_start : Z; ic_end : Z }.
 
@@ -439,27 +449,25 @@ Definition ictx_of_blob (b : iblob) : ictx :=
   {| ic_mode := ib_mode b; ic_keyattr := ib_keyattr b; ic_key1 := ib_key1 b; ic_key2 := ib_key2 b;
      ic_start := ib_start b; ic_end := ib_end b |}.
 Definition ib_covers (b : iblob) (a : Z) : bool := (ib_start b <=? a) && (a <? ib_end b).
-(* 4 KiB-aligned region [start, end); keys made of whole 32-bit words; AES-XTS or AES-CTR with address binding *)
+(* 4 KiB-aligned region [start, end); keys made of whole 32-bit words; AES-XTS, AES-CTR with address binding or Bypass *)
 Definition ib_wf (b : iblob) : Prop :=
   0 <= ib_start b /\ ib_start b mod 4096 = 0 /\ ib_end b mod 4096 = 0 /\ ib_start b < ib_end b /\ ib_end b <= 4294967295 /\
   Nat.modulo (length (ib_key1 b)) 4 = 0%nat /\ Nat.modulo (length (ib_key2 b)) 4 = 0%nat /\
-  (ib_mode b = MODE_XTS \/ (ib_mode b = MODE_CTR_ADDR /\ length (ib_key2 b) = 16%nat)).
+  (ib_mode b = MODE_XTS \/ (ib_mode b = MODE_CTR_ADDR /\ length (ib_key2 b) = 16%nat) \/ ib_mode b = MODE_BYPASS).
 Definition iblobs_disjoint (bl : list iblob) : Prop :=
   ForallOrdPairs (fun b1 b2 => forall a, ib_covers b1 a = true -> ib_covers b2 a = false) bl.
 Definition iee_outside (blobs : list iblob) (a : Z) : Prop := forall b, In b blobs -> ib_covers b a = false.
 (* the cipher laws needed for a blob: XTS needs D o E = id on 16-byte blocks under the data key and a well-behaved E
-   under the tweak key; CTR only needs E to produce 16-byte blocks *)
+   under the tweak key; CTR only needs E to produce 16-byte blocks; Bypass needs nothing *)
 Definition okblock (b : list N) : Prop := length b = 16%nat /\ wf_bytes b.
 Definition ib_cipher_ok (E D : cipher) (b : iblob) : Prop :=
   if ib_mode b =? MODE_XTS
   then (forall x, okblock x -> D (word_rev (ib_key1 b)) (E (word_rev (ib_key1 b)) x) = x) /\
        (forall x, okblock x -> okblock (E (word_rev (ib_key1 b)) x)) /\
        (forall x, okblock x -> okblock (E (word_rev (ib_key2 b)) x))
-  else forall x, length x = 16%nat -> length (E (word_rev (ib_key1 b)) x) = 16%nat.
-(* first counter word + number of the last 16-byte block that SPSDK encrypts in the region stays below 2^32 *)
-Definition ib_no_ctr_overflow (b : iblob) (top : Z) : Prop :=
-  ib_mode b = MODE_CTR_ADDR ->
-  Z.of_N (be_dec (skipn 12 (word_rev (ib_key2 b)))) + Z.min (top + 15) (ib_end b) / 16 <= 4294967296.
+  else if ib_mode b =? MODE_CTR_ADDR
+  then forall x, length x = 16%nat -> length (E (word_rev (ib_key1 b)) x) = 16%nat
+  else True.
 
 (* ================================================================== BEE ============================== *)
 Record fac := { fc_start : Z; fc_len : Z; fc_level : Z }.
@@ -496,8 +504,8 @@ Definition bee_encrypt_block (E : cipher) (h : bhdr) (a : Z) (data : list N) : r
                else if negb (Nat.eqb (length (bh_counter h)) 16) then Err 1
                else
                  let c := Z.of_N (be_dec (skipn 12 (bh_counter h))) + Z.shiftr a 4 in
-                 if negb (u32_ok c) then Err 2                      (* Counter.value: OverflowError *)
-                 else Ok (ctr_xcrypt (E (bh_swkey h)) (firstn 12 (bh_counter h) ++ be32 c) (pad16_rnd data))
+                 (* Counter.value encodes the counter word modulo 2^32 (be32 truncates) *)
+                 Ok (ctr_xcrypt (E (bh_swkey h)) (firstn 12 (bh_counter h) ++ be32 c) (pad16_rnd data))
            end
     else Ok data.
 
@@ -513,7 +521,7 @@ Fixpoint bee_piece (E : cipher) (hs : list (option bhdr)) (a : Z) (blk : list N)
 
 (* BeeNxp.export_image *)
 Definition bee_export_image (E : cipher) (hs : list (option bhdr)) (image : list N) (base : Z) : res (list N) :=
-  seq_concat (pieces (bee_piece E hs) U1K base image).
+  seq_concat (grid_pieces (bee_piece E hs) U1K base image).
 
 (* BeeFacRegion.export *)
 Definition fac_export (f : fac) : list N := le32 (fc_start f) ++ le32 (fc_end f) ++ le32 (fc_level f) ++ zeros 20.
